@@ -425,6 +425,9 @@ func (ex *Exec) applyContract(fc *FuncContract, key string, names []string, args
 	env.st = post
 	bindResults(env, sig, res)
 	for _, cl := range fc.Ensures {
+		if strings.HasPrefix(cl.Label, "body.") {
+			continue // proved of the body only; call sites see the [call:...] summary instead
+		}
 		em.assume(ex.curPC, env.evalBool(cl.Expr))
 	}
 	return res
